@@ -170,6 +170,10 @@ def t_wiring(world):
 F_RECV = 16
 
 
+def tf(eng, v, i, ty=I80):
+    return ev(eng.get_path(v, (('f', i, ty),)))
+
+
 def t_start_end(world):
     obs = []
     RE = [r'RiskEngine', r'HealthCache', r'rotate_left', r'to_le_bytes', r'to_num']
@@ -192,8 +196,8 @@ def t_start_end(world):
         t3 = pre[0][3].payload[0][0]; t2 = comp[0][3].payload[0][0]
         rec = eng.deref_val(r['roots'][1])
         g = lambda n: ev(fget(eng, rec, 'LiquidationRecord', 'cache.' + n))
-        ob.prove(eng, r, [okc], z3.And(g('asset_value_maint') == ev(t3.fields[1]), g('liability_value_maint') == ev(t3.fields[2]),
-                                       g('asset_value_equity') == ev(t2.fields[0]), g('liability_value_equity') == ev(t2.fields[1])), 'snapshot == the four values computed now')
+        ob.prove(eng, r, [okc], z3.And(g('asset_value_maint') == tf(eng, t3, 1), g('liability_value_maint') == tf(eng, t3, 2),
+                                       g('asset_value_equity') == tf(eng, t2, 0), g('liability_value_equity') == tf(eng, t2, 1)), 'snapshot == the four values computed now')
         fl1 = ev(fget(eng, r['roots'][0], 'MarginfiAccount', 'account_flags'))
         ob.prove(eng, r, [okc], (fl1 / F_RECV) % 2 == 1, 'ACCOUNT_IN_RECEIVERSHIP set')
         rq = comp[0][2][1]
@@ -213,7 +217,7 @@ def t_start_end(world):
         comp = [e for e in Ev if re.search(r'get_account_health_components$', e[1])]
         if len(pre) != 1 or len(comp) != 1: ob.fail('post-check / equity components not called exactly once'); continue
         g0 = lambda n: fsym('rec*', 'LiquidationRecord', 'cache.' + n)
-        post_h = ev(pre[0][3].payload[0][0].fields[0])
+        post_h = tf(eng, pre[0][3].payload[0][0], 0)
         ob.prove(eng, r, [okc], z3.And(zint(pre[0][3].disc) == 0, zint(comp[0][3].disc) == 0), 'errors of the post-check are propagated')
         ob.prove(eng, r, [okc], post_h >= g0('asset_value_maint') - g0('liability_value_maint'), 'maintenance health did not get worse than the snapshot')
         ob.prove(eng, r, [okc], pre[0][2][3].e == args[3].e, 'ignore_healthy passed through')
@@ -221,7 +225,7 @@ def t_start_end(world):
         ob.prove(eng, r, [okc], (fl1 / F_RECV) % 2 == 0, 'ACCOUNT_IN_RECEIVERSHIP cleared')
         ob.prove(eng, r, [okc], ev(fget(eng, r['roots'][1], 'LiquidationRecord', 'liquidation_receiver')) == 0, 'liquidation receiver reset')
         out = r['ret'].payload[0][0]; t2 = comp[0][3].payload[0][0]
-        ob.prove(eng, r, [okc], z3.And(ev(out.fields[0]) == g0('asset_value_equity') - ev(t2.fields[0]), ev(out.fields[2]) == g0('liability_value_equity') - ev(t2.fields[1])), 'seized / repaid = equity snapshot - equity now')
+        ob.prove(eng, r, [okc], z3.And(tf(eng, out, 0) == g0('asset_value_equity') - tf(eng, t2, 0), tf(eng, out, 2) == g0('liability_value_equity') - tf(eng, t2, 1)), 'seized / repaid = equity snapshot - equity now')
     ob.need_witness(); obs.append(ob)
     # end_liquidation: premium bound
     eng = world.engine(opaque=RE + [r'end_receivership$', r'anchor_lang::', r'emit', r'Event', r'transfer_flat_fee', r'validate_not_cpi'])
@@ -236,7 +240,7 @@ def t_start_end(world):
         er = [e for e in Ev if re.search(r'end_receivership$', e[1])]; nc = [e for e in Ev if re.search(r'validate_not_cpi_by_stack_height$', e[1])]
         if len(er) != 1 or not nc: ob.fail('end_receivership / not-CPI check missing'); continue
         ob.prove(eng, r, [okc], z3.And(zint(er[0][3].disc) == 0, zint(nc[0][3].disc) == 0), 'errors propagated')
-        tup = er[0][3].payload[0][0]; seized = ev(tup.fields[0]); repaid = ev(tup.fields[2])
+        tup = er[0][3].payload[0][0]; seized = tf(eng, tup, 0); repaid = tf(eng, tup, 2)
         names = [n for n in free_consts(z3.And(r['pc'])) if n.endswith(f".acct.{STRUCTS['LiquidationRecord'].index('cache')}.{STRUCTS['LiquidationCache'].index('asset_value_equity')}")]
         fees = [n for n in free_consts(z3.And(r['pc'])) if n.endswith(f".acct.{STRUCTS['FeeState'].index('liquidation_max_fee')}")]
         if not names: ob.fail('pre_assets_equity does not influence acceptance'); continue
@@ -244,9 +248,13 @@ def t_start_end(world):
         ob.prove(eng, r, [okc], ig.e == (pae < 5 * W), 'ignore_healthy <=> assets were worth under five dollars')
         mf = z3.Int(fees[0]) if fees else None
         if mf is None: ob.fail('fee_state.liquidation_max_fee does not influence acceptance'); continue
-        maxfee = z3.If(W + mf >= W + (W * 5) / 100, W + mf, W + (W * 5) / 100)
+        bonus = eng.const_val(None, 'constants::LIQUIDATION_BONUS_FEE_MINIMUM')
+        if not isinstance(bonus, IntV) or not z3.is_int_value(z3.simplify(bonus.e)) or abs(z3.simplify(bonus.e).as_long() - W * 5 // 100) > 1:
+            ob.fail('LIQUIDATION_BONUS_FEE_MINIMUM is not 5% (+-1 ulp)'); continue
+        bmin = z3.simplify(bonus.e).as_long()
+        maxfee = z3.If(W + mf >= W + bmin, W + mf, W + bmin)
         dom = [repaid >= 0, repaid < (1 << 64) * W, mf >= 0, mf <= W, pae >= 5 * W]
-        ob.prove(eng, r, [okc] + dom, z3.And(seized <= (repaid * maxfee) / W + 1, seized <= (repaid * (W + W)) / W), 'seized <= repaid * max premium (premium at least 5%, at most 1+max fee)')
+        ob.prove(eng, r, [okc] + dom, seized <= (repaid * maxfee) / W, 'seized <= repaid * max premium, premium = max(1 + configured max fee, 1 + 5%)')
         ob.no_panic(eng, r, [okc] + dom, kinds=('wrapping_mul',))
     ob.need_witness(); obs.append(ob)
     return obs
